@@ -143,7 +143,9 @@ func newLattice(params []float64) *lattice {
 }
 
 // at returns the index of the largest lattice point <= x, or -1.
-func (l *lattice) at(x float64) int { return sort.Search(len(l.pts), func(i int) bool { return l.pts[i] > x }) - 1 }
+func (l *lattice) at(x float64) int {
+	return sort.Search(len(l.pts), func(i int) bool { return l.pts[i] > x }) - 1
+}
 
 func (l *lattice) cdf(x float64) float64 {
 	if i := l.at(x); i >= 0 {
@@ -495,7 +497,7 @@ const rule = "Generic stats.InvCDF on (a) rapid-generated user-defined piecewise
 	"ulp either side, 0, 1, outside [0,1]. Oracle = the definition: CDF(x+tau)>=y and CDF(x-tau)<y with tau=1e-9*max(1,|x|), " +
 	"monotone in y, NaN outside, end-point rule at 0 and 1. Dispatch: NormalDist, DeltaDist and a stub must be answered by their " +
 	"own methods bit-for-bit. Rand: draws equal InvCDF(y_i) on a scripted source (zeros injected), KS distance of 50000 draws " +
-	"(thorough up to 1e6) below the DKW 1e-9 bound. Non-trivial: 0<y<1 and (jump or flat stretch present, or built-in)."
+	"(thorough up to 1e6) below the DKW 1e-9 bound. Non-trivial: 0<y<1 and (jump or flat stretch present, or built-in). Later additions: discrete distributions (binomial, hypergeometric, U, user-defined lattices on s*N with steps 1e-3..1000) also handed over as DiscreteDist with PMF and Step visible; stubs that are discrete / lack Rand; scripted sources emitting zero words."
 
 func drawPW(t *rapid.T) *PW {
 	n := rapid.IntRange(2, 8).Draw(t, "knots")
